@@ -661,6 +661,10 @@ func genKey(t *rapid.T) string {
 
 func genPrintable(t *rapid.T) string {
 	n := rapid.IntRange(0, 12).Draw(t, "strlen")
+	if rapid.IntRange(0, 14).Draw(t, "longstr") == 0 {
+		n = rapid.SampledFrom([]int{63, 64, 65, 255, 256, 257, 1023, 1024, 1025, 4096, 4097}).Draw(t, "longstrlen")
+		return strings.Repeat("s", n-1) + string(rune(rapid.SampledFrom([]byte{'"', '\\', 'z', ' '}).Draw(t, "longstrlast")))
+	}
 	b := make([]byte, 0, n)
 	for i := 0; i < n; i++ {
 		switch rapid.IntRange(0, 5).Draw(t, "strmode") {
@@ -696,6 +700,18 @@ func genItem(t *rapid.T) ItemC {
 	n := rapid.IntRange(0, 10).Draw(t, "byteslen")
 	if n == 0 && rapid.Bool().Draw(t, "nilbytes") {
 		return ItemC{K: "bytes", B: vh.B{}, NilB: true}
+	}
+	if rapid.IntRange(0, 9).Draw(t, "longbytes") == 0 {
+		// long byte sequences: a chunked base64 encoder / decoder has boundaries that the values of
+		// real headers (a 32-byte hash, a 70-byte signature) never reach; every residue mod 3
+		n = rapid.SampledFrom([]int{47, 48, 49, 57, 255, 256, 257, 767, 768, 769, 1023, 1024, 1025, 1026, 3071, 3072, 3073, 4095, 4096, 4097, 5000}).Draw(t, "longlen")
+		b := make([]byte, n)
+		x := uint32(n)*2654435761 + 12345
+		for i := range b {
+			x = x*1664525 + 1013904223
+			b[i] = byte(x >> 24)
+		}
+		return ItemC{K: "bytes", B: b}
 	}
 	b := make([]byte, n)
 	for i := range b {
